@@ -71,8 +71,11 @@ def main():
               ("divmod.arg", "divmod(X, 2)"), ("divmod.param", "divmod(r['c'], X)"), ("trunc.arg", "math.trunc(X)"),
               ("floor.arg", "math.floor(X)"), ("ceil.arg", "math.ceil(X)"), ("call.arg0", "fr.f(X, 1)"),
               ("call.arg1", "fr.f(1, X)"), ("call.kwarg", "fr.f(1, q=X)"), ("call.func", "X(1)"),
+              ("call.literal-first", "fr.f(R.LiteralExpr(0.5), X)"), ("call.literal-then-kw", "fr.f(R.LiteralExpr(1), q=X)"),
+              ("call.literal-func-arg", "R.CallRef(math.hypot, (R.LiteralExpr(0.0), X, r['b']), {})"),
+              ("builtin.literal-arg", "R.BuiltinRef(R.LiteralExpr(2.5), round, (X,))"),
               ("item.key", "r['lst'][X]"), ("item.owner", "X[0]"), ("attr.owner", "X.real"), ("matmul.lhs", "X @ 2")]
-        env = dict(r=r, fr=fr, operator=operator, math=math)
+        env = dict(r=r, fr=fr, operator=operator, math=math, R=R)
         return [(n, (lambda X, src=src: eval(src, dict(env, X=X)))) for n, src in S], dict(S)
 
     FILL = {"item": "r['a']", "nested-item": "r['n']['x']", "computed-key": "r['lst'][r['i']]",
@@ -133,14 +136,32 @@ def locs(e):
         elif got != want:
             rac.fail(f"slot {bname} {fname}", f"_get_dependencies of {e}: reported {sorted(map(str, got))}, locations inside: {sorted(map(str, want))}",
                      script, type(e).__name__ + "._get_dependencies")
-        # also with a caller-provided accumulator
-        acc = {r["c"]}
-        try:
-            ret = e._get_dependencies(acc)
-            if acc != want | {r["c"]}:
-                rac.fail(f"slot-acc {bname} {fname}", f"_get_dependencies(out) of {e} left out = {sorted(map(str, acc))}", script, type(e).__name__ + "._get_dependencies")
-        except Exception as ex:      # noqa
-            rac.fail(f"slot-acc {bname} {fname}", f"_get_dependencies(out) of {e} raised {ex!r}", script, type(e).__name__ + "._get_dependencies")
+        # also with a caller-provided accumulator (non-empty and EMPTY: callers rely on in-place update)
+        for acc0 in ({r["c"]}, set()):
+            acc = set(acc0)
+            try:
+                ret = e._get_dependencies(acc)
+                if acc != want | acc0:
+                    rac.fail(f"slot-acc{len(acc0)} {bname} {fname}", f"_get_dependencies(out) of {e} with out={sorted(map(str, acc0))} left out = {sorted(map(str, acc))}, "
+                             f"locations inside: {sorted(map(str, want))}", script.replace("got = e._get_dependencies()", "got = set(); e._get_dependencies(got)"),
+                             type(e).__name__ + "._get_dependencies")
+            except Exception as ex:      # noqa
+                rac.fail(f"slot-acc {bname} {fname}", f"_get_dependencies(out) of {e} raised {ex!r}", script, type(e).__name__ + "._get_dependencies")
+        # ... and as an operand of an enclosing node (the enclosing node hands down its own, still empty, accumulator)
+        for wname, wrap in (("1+e", lambda q: 1 + q), ("-e", lambda q: -q), ("abs(e)", abs), ("f(e)", lambda q: fr.f(q)),
+                            ("f(k=e)", lambda q: fr.f(k=q))):
+            try:
+                w = wrap(e)
+                gotw = w._get_dependencies()
+            except Exception:      # noqa
+                continue
+            wantw = locs(w)
+            rac.case((bname, fname, wname), nontrivial=bool(wantw))
+            if gotw != wantw:
+                rac.fail(f"nested {wname} {bname} {fname}", f"_get_dependencies of {w}: reported {sorted(map(str, gotw or []))}, locations inside: {sorted(map(str, wantw))}",
+                         slot_script(bsrcs[bname], FILL[fname]).replace("e = " + bsrcs[bname], "e0 = " + bsrcs[bname] + "\ne = (%s)(e0)" % {
+                             "1+e": "lambda q: 1 + q", "-e": "lambda q: -q", "abs(e)": "abs", "f(e)": "lambda q: fr.f(q)", "f(k=e)": "lambda q: fr.f(k=q)"}[wname]),
+                         type(w).__name__ + "._get_dependencies")
     missing = [c for c in classes if c not in seen_classes and c not in ("BaseRef", "MutableRef", "BinOpExpr", "UnaryOpExpr",
                                                                       "Ref", "ObjectAttrRef", "LiteralExpr", "AttrRef", "ItemRef")]
     rac.section("perturb", "numeric expressions from the slot builders registered as the definition of d['t']; each "
